@@ -8,6 +8,7 @@
    that are not holes and from earlier facts, so the patch cannot disturb them. *)
 From Dns Require Import Base.ListX Model.Msg Gen.Layouts Spec.NameSpec Proofs.NameWireProofs
   Proofs.NameRoundtripProofs Proofs.CompressProofs Proofs.CompressFieldsProofs.
+From Dns Require Proofs.LenMsgProofs.
 From Coq Require Import Lia ZifyN ZifyNat ZifyBool.
 Open Scope list_scope.
 Open Scope N_scope.
@@ -670,17 +671,17 @@ Proof.
   - apply (msg_names_laid _ _ _ _ Hu). exact Hlt.
 Qed.
 
-(* the library's own decoder reads every packed name of at most 126 labels *)
+(* the library's own decoder reads every packed name *)
 Theorem msg_names_decode m buflen w u p s :
   pack_msg_buf m buflen = Ok (w, u) -> lenN w < msg_cap m buflen ->
   In (p, s) (msg_sites m buflen) ->
   exists ls, parse_name s = Some ls /\ lays w p ls /\
-    ((length ls <= 126)%nat -> exists e, unpack_name w p = Ok (show_name ls, e)).
+    exists e, unpack_name w p = Ok (show_name ls, e).
 Proof.
   intros H Hlt Hin. pose proof (msg_names_laid _ _ _ _ H Hlt) as HF.
   rewrite Forall_forall in HF. destruct (HF _ Hin) as [ls [P1 [P2 [h [e P3]]]]]. cbn [fst snd] in *.
   exists ls. split; [exact P1|]. split; [now exists h, e|].
-  intro Hl. exists e. apply (lays_unpack _ _ _ h _ P3 P2). pose proof (laysn_hops _ _ _ _ _ P3). lia.
+  exists e. exact (lays_unpack_labels _ _ _ h _ P3 P2).
 Qed.
 
 (* D: every pointer met while reading a name of the packed message targets an
@@ -701,7 +702,74 @@ Proof.
   rewrite Hp in P1. injection P1 as <-. exact (laid_pointers_valid _ _ _ _ _ P3 Hr Hc).
 Qed.
 
-(* ================= non-vacuity and the finding at message level ================= *)
+(* ================= discharging the buffer-not-full hypothesis ================= *)
+(* Len() without a compression map bounds what Pack writes (C08,
+   Proofs/LenMsgProofs.v) and the buffer has at least Len+1 octets: for messages
+   whose records satisfy msg_okb the packed octets never fill the buffer *)
+Lemma msg_okb_room m buflen w u :
+  LenMsgProofs.msg_okb m = true -> pack_msg_buf m buflen = Ok (w, u) -> lenN w < msg_cap m buflen.
+Proof.
+  intros Hok H. pose proof (LenMsgProofs.uncompressed_len_ge_pack m buflen w u Hok H) as Hle.
+  pose proof (LenMsgProofs.msg_cap_gt m buflen) as Hgt.
+  change (LenMsgProofs.msg_cap m buflen) with (msg_cap m buflen) in Hgt. lia.
+Qed.
+
+Lemma uncompressed_okb m : LenMsgProofs.msg_okb (uncompressed m) = LenMsgProofs.msg_okb m.
+Proof. reflexivity. Qed.
+
+Theorem msg_names_laid_ok m buflen w u :
+  LenMsgProofs.msg_okb m = true -> pack_msg_buf m buflen = Ok (w, u) ->
+  map snd (msg_sites m buflen) = filter nonempty (msg_names m) /\
+  Forall (site_ok w) (msg_sites m buflen).
+Proof.
+  intros Hok H. pose proof (msg_okb_room _ _ _ _ Hok H) as Hlt.
+  split; [|exact (msg_names_laid m buflen w u H Hlt)].
+  destruct (pack_msg_buf_st _ _ _ _ H) as [st [Hst ->]]. exact (msg_sites_texts m buflen st Hst Hlt).
+Qed.
+
+Theorem compression_is_transparent_ok m buflen wc uc wu uu :
+  LenMsgProofs.msg_okb m = true ->
+  pack_msg_buf m buflen = Ok (wc, uc) -> pack_msg_buf (uncompressed m) buflen = Ok (wu, uu) ->
+  map snd (msg_sites m buflen) = filter nonempty (msg_names m) /\
+  Forall2 (fun sc su : N * bytes => snd sc = snd su /\
+             exists ls, parse_name (snd sc) = Some ls /\ wire_len ls <= 255 /\
+                        lays wc (fst sc) ls /\ lays wu (fst su) ls)
+          (msg_sites m buflen) (msg_sites (uncompressed m) buflen).
+Proof.
+  intros Hok Hc Hu. apply (compression_is_transparent m buflen wc uc wu uu Hc Hu).
+  rewrite <- (uncompressed_cap m buflen). apply (msg_okb_room _ _ _ _ (eq_trans (uncompressed_okb m) Hok) Hu).
+Qed.
+
+Theorem msg_names_decode_ok m buflen w u p s :
+  LenMsgProofs.msg_okb m = true -> pack_msg_buf m buflen = Ok (w, u) ->
+  In (p, s) (msg_sites m buflen) ->
+  exists ls, parse_name s = Some ls /\ lays w p ls /\
+    exists e, unpack_name w p = Ok (show_name ls, e).
+Proof. intros Hok H. exact (msg_names_decode m buflen w u p s H (msg_okb_room _ _ _ _ Hok H)). Qed.
+
+Theorem msg_pointers_ok m buflen w u ps ls p' ls' :
+  LenMsgProofs.msg_okb m = true -> pack_msg_buf m buflen = Ok (w, u) ->
+  In ps (msg_sites m buflen) -> parse_name (snd ps) = Some ls ->
+  reach w (fst ps) ls p' ls' -> 192 <= nthN w p' 0 ->
+  (nthN w p' 0 - 192) * 256 + nthN w (p' + 1) 0 < p' /\
+  (nthN w p' 0 - 192) * 256 + nthN w (p' + 1) 0 < max_compression_offset /\
+  1 <= nthN w ((nthN w p' 0 - 192) * 256 + nthN w (p' + 1) 0) 0 < 64 /\
+  ls' <> [] /\ lays w ((nthN w p' 0 - 192) * 256 + nthN w (p' + 1) 0) ls' /\
+  exists pre, ls = pre ++ ls'.
+Proof.
+  intros Hok H. exact (msg_pointers_target_earlier_suffixes m buflen w u ps ls p' ls' H (msg_okb_room _ _ _ _ Hok H)).
+Qed.
+
+Theorem msg_final_map_inv_ok m buflen w u :
+  LenMsgProofs.msg_okb m = true -> pack_msg_buf m buflen = Ok (w, u) ->
+  exists st, pack_msg_st m buflen = Ok st /\ w = pn_out st /\ st_inv st.
+Proof.
+  intros Hok H. pose proof (msg_okb_room _ _ _ _ Hok H) as Hlt.
+  destruct (pack_msg_buf_st _ _ _ _ H) as [st [Hst E]]. exists st. split; [exact Hst|]. split; [exact E|].
+  apply (msg_final_map_inv m buflen st Hst). now rewrite <- E.
+Qed.
+
+(* ================= non-vacuity and the hop-limit edge at message level ================= *)
 Definition ex_rr (name : bytes) (t : N) (kind : string) (d : rdata) : rr :=
   {| rr_name := name; rr_type := t; rr_class := 1; rr_ttl := 300; rr_rdlength := 0; rr_kind := kind; rr_data := d |}.
 Definition ex_msg_of (qs : list question) (an ex : list rr) : msg :=
@@ -720,6 +788,7 @@ Definition ex_msg : msg :=
 Example msg_example :
   match pack_msg_buf ex_msg 0, pack_msg_buf (uncompressed ex_msg) 0 with
   | Ok (wc, _), Ok (wu, _) =>
+    LenMsgProofs.msg_okb ex_msg = true /\
     lenN wc = 92 /\ lenN wu = 143 /\ lenN wu < msg_cap ex_msg 0 /\
     map fst (msg_sites ex_msg 0) = [12; 29; 41; 47; 69; 76] /\
     map fst (msg_sites (uncompressed ex_msg) 0) = [12; 29; 52; 69; 94; 112] /\
@@ -728,7 +797,7 @@ Example msg_example :
             (msg_sites ex_msg 0) = true /\
     forallb (fun ps => match parse_name (snd ps) with Some ls => laysb 9 wu (fst ps) ls | None => false end)
             (msg_sites (uncompressed ex_msg) 0) = true /\
-    (* the MX owner differs in case: its first label is written out, the rest points at "com" *)
+    (* the MX owner differs in case: its first label is written out, the rest points at com *)
     takeN 10 (dropN 47 wc) = 7 :: bytes_of_string "example" ++ [192; 20] /\
     (* the MX exchange is compressed against the question name *)
     takeN 7 (dropN 69 wc) = 4 :: bytes_of_string "mail" ++ [192; 12]
@@ -736,27 +805,28 @@ Example msg_example :
   end.
 Proof. vm_compute. repeat split. Qed.
 
-(* FINDING at message level: 127 A records owned by a., a.a., ..., (a.)^127 and
-   one more owned by (a.)^127.  Pack with compression succeeds (well inside the
-   buffer); the owner of the last record is a bare pointer behind 127 hops,
-   which UnpackDomainName rejects, so Msg.Unpack fails on octets Msg.Pack
-   produced from a message of valid names.  (Confirmed on the real library:
-   "dns: too many compression pointers".) *)
+(* The edge of the hop limit at message level (the finding that led to the
+   repair): 127 A records owned by a., a.a., ..., (a.)^127 and one more owned by
+   (a.)^127, whose owner is a bare pointer read through 127 hops.  With the limit
+   at 127 Unpack accepts the octets Pack produced and returns the same owners. *)
 Definition chain_msg : msg :=
   ex_msg_of [] (map (fun s => ex_rr s 1 "A" [("A"%string, V_b [192; 0; 2; 1])]) chain_names) [].
 
-Example chain_msg_witness :
+Example chain_msg_roundtrip :
   match pack_msg_buf chain_msg 0 return Prop with
   | Ok (w, _) =>
-    lenN w < msg_cap chain_msg 0 /\
+    LenMsgProofs.msg_okb chain_msg = true /\
     forallb (fun s => match parse_name s with Some ls => valid_wire ls | None => false end)
             (msg_names chain_msg) = true /\
     match rev (msg_sites chain_msg 0) return Prop with
     | (p, s) :: _ => s = chain_name 127 /\ laysb 400 w p chain_labels = true /\
-                     unpack_name w p = Err "pointers"
+                     unpack_name w p = Ok (chain_name 127, p + 2)
     | [] => False
     end /\
-    match unpack_msg w return Prop with Ok (_, failed) => failed = true | _ => False end
+    match unpack_msg w return Prop with
+    | Ok (m', failed) => failed = false /\ map rr_name (m_answer m') = chain_names
+    | _ => False
+    end
   | _ => False
   end.
 Proof. vm_compute. repeat split. Qed.
